@@ -182,14 +182,22 @@ LINESEARCH = [
 def accept_guarded(ctx: Ctx):
     repo, res = ctx.repo, ctx.res
     for q in LINESEARCH:
-        f = repo.func(q)
+        from ..inline import with_inlined
+
+        f = with_inlined(repo, repo.func(q), kinds=("nested",))  # the extrapolation may be written in a nested helper
         nodes = list(own_scope_nodes(f.node))
-        # names computed from `jump`
+        # the step length of the extrapolation: the name given `iteration ** (1 / acc_pow)` (a root of the
+        # iteration count), whatever it is called
         tainted = set()
-        jumps = [s for s in nodes if isinstance(s, ast.Assign) and any(is_name(t, "jump") for t in s.targets)]
+
+        def is_root_power(v):
+            return isinstance(v, ast.BinOp) and isinstance(v.op, ast.Pow) and isinstance(v.right, ast.BinOp) and isinstance(v.right.op, ast.Div) and isinstance(v.right.left, ast.Constant) and v.right.left.value == 1
+
+        jumps = [s for s in nodes if isinstance(s, ast.Assign) and len(s.targets) == 1 and isinstance(s.targets[0], ast.Name) and is_root_power(s.value)]
         if not jumps:
-            raise AnalysisError(f"ACCEPT-GUARDED: {q} no longer computes `jump`; the line-search table is stale")
-        tainted.add("jump")
+            raise AnalysisError(f"ACCEPT-GUARDED: {q} no longer computes a step length `iteration ** (1 / acc_pow)`; the line-search table is stale")
+        jump_names = {s.targets[0].id for s in jumps}
+        tainted |= jump_names
 
         def names_of(t):
             return [n.id for n in ast.walk(t) if isinstance(n, ast.Name)]
@@ -206,13 +214,29 @@ def accept_guarded(ctx: Ctx):
                     if isinstance(t, (ast.Name, ast.Tuple)):
                         for nm in names_of(t):
                             defs.setdefault(nm, []).append(s_.value)
+        # element writes: L.append(E) / L[i] = E define (part of) L
+        elem_defs = {}
+        for s_ in nodes:
+            if isinstance(s_, ast.Expr) and isinstance(s_.value, ast.Call) and isinstance(s_.value.func, ast.Attribute) and s_.value.func.attr in ("append", "extend") and isinstance(s_.value.func.value, ast.Name) and len(s_.value.args) == 1:
+                elem_defs.setdefault(s_.value.func.value.id, []).append(s_.value.args[0])
+            if isinstance(s_, ast.Assign) and len(s_.targets) == 1 and isinstance(s_.targets[0], ast.Subscript) and isinstance(s_.targets[0].value, ast.Name):
+                elem_defs.setdefault(s_.targets[0].value.id, []).append(s_.value)
+        for nm, vs in elem_defs.items():
+            if nm in defs:
+                defs[nm].extend(vs)
         for p_ in f.all_params:
             defs.setdefault(p_, []).append(None)
+
         changed = True
         while changed:
             changed = False
             for nm, vs in defs.items():
-                if nm not in tainted and vs and all(v is not None and uses_tainted(v) for v in vs):
+                if nm in tainted or not vs or any(v is None for v in vs):
+                    continue
+                rest = [v for v in vs if not (isinstance(v, ast.List) and not v.elts and nm in elem_defs)]
+                # an update of the name in terms of itself (clipping one entry) keeps what it is
+                rest = [v for v in rest if not (nm in {n.id for n in ast.walk(v) if isinstance(n, ast.Name)} and not uses_tainted(v))]
+                if any(uses_tainted(v) for v in rest) and all(uses_tainted(v) for v in rest):
                     tainted.add(nm)
                     changed = True
         parents = {}
@@ -268,7 +292,7 @@ def accept_guarded(ctx: Ctx):
                 tgs = [nm for t in s_.targets if isinstance(t, (ast.Name, ast.Tuple)) for nm in names_of(t)]
                 if tgs and any(nm not in tainted for nm in tgs):
                     accepts.append(s_)
-            if isinstance(s_, ast.Return) and s_.value is not None and any(isinstance(n, ast.Name) and n.id in tainted and n.id != "jump" for n in ast.walk(s_.value)):
+            if isinstance(s_, ast.Return) and s_.value is not None and any(isinstance(n, ast.Name) and n.id in tainted and n.id not in jump_names for n in ast.walk(s_.value)):
                 accepts.append(s_)
         if not accepts:
             raise AnalysisError(f"ACCEPT-GUARDED: no acceptance of an extrapolated iterate found in {q}; the line-search table is stale")
